@@ -317,18 +317,23 @@ def stroh(ctx):
     def decide(text, v, pth):
         return None
     kw = dict(ξ_uvw='XI', slip_hkl='HKL', transform='TR', axes='AX', box='BOX', m='M', n='N', cart_axes='CA', tol='TOL')
+    class Craw(PyStub):
+        # the constants as the caller gave them, in the crystal frame: not the ones the eigenproblem is to be built from (those are self.C, rotated into the dislocation frame)
+        Cijkl = symarray('craw', (3, 3, 3, 3), real=True)
+        Cij = symarray('craw6', (6, 6), real=True)
+    craw = Craw()
     try:
-        paths = ev.run_fn(sfn, [obj2, 'C', 'B'], dict(kw))
+        paths = ev.run_fn(sfn, [obj2, craw, 'B'], dict(kw))
     except Opaque as e:
         raise AnalysisError('Stroh.solve: %s' % e)
-    ok = 'base' in rec and rec['base'][0] == 'C' and rec['base'][1] == 'B' and rec['base'][2] == kw
+    ok = 'base' in rec and rec['base'][0] is craw and rec['base'][1] == 'B' and rec['base'][2] == kw
     ctx.ob('STROH', loc + 'solve', 'the generic orientation handling receives the constants, the Burgers vector and every orientation argument unchanged', ok, str(rec.get('base'))[:200], node=sfn, key='solve forward')
     Q = np.einsum('i,ijkl,l->jk', m, C4, m)
     R = np.einsum('i,ijkl,l->jk', m, C4, n)
     RT = np.einsum('i,ijkl,l->jk', n, C4, m)
     T = np.einsum('i,ijkl,l->jk', n, C4, n)
     ok = 'inv_arg' in rec and equal(rec['inv_arg'], T)
-    ctx.ob('STROH', loc + 'solve', 'the matrix that is inverted is (nn)_jk = n_i C_ijkl n_l', bool(ok), node=sfn, key='nn')
+    ctx.ob('STROH', loc + 'solve', 'the matrix that is inverted is (nn)_jk = n_i C_ijkl n_l with C the stiffness rotated into the dislocation frame (self.C)', bool(ok), node=sfn, key='nn')
     if 'N' in rec:
         N = rec['N']
         wantN = np.vstack((np.hstack((-NNI.dot(RT), -NNI)), np.hstack((Q - R.dot(NNI).dot(RT), -R.dot(NNI)))))
@@ -591,4 +596,4 @@ def run(ctx):
                        'with a raising model of the anisotropic solver; the plane-normal construction used by the Miller route is decided as in C16. Not decided: accuracy of the numerical eigen-solution, positive-definiteness, the isotropic limit.')
     from .c16 import plane_normal, map34     # the Miller route (ξ_uvw, slip_hkl) gets its n axis from miller.plane_crystal_to_cartesian; the Burgers vector and the line
     # direction given in crystal indices become Cartesian vectors through miller.vector_crystal_to_cartesian (a vector: no origin added)
-    ctx.run_rules([isotropic, stroh, frame, dispatch, plane_normal, map34, float_fields, resolve_state, stiffness_rotation])
+    ctx.run_rules([isotropic, stroh, frame, dispatch, plane_normal, map34, float_fields, resolve_state, stiffness_rotation, lambda c: __import__("amverif.rules.c11", fromlist=["x"]).axes_check_rule(c, "FRAME")])
